@@ -44,6 +44,11 @@ MINI = [("u", "fresh"), ("v", "fresh"), ("u", "other")]
 
 
 def df_stmts(ivar, alphabet):
+    if alphabet == "slices":
+        # slicing subscripts in every position of a control skeleton (the converter shares 1-D int constants between
+        # subscript expressions; a seeded defect shared them across subgraph scopes)
+        return [["assign", "u", ["sub", V("x"), 0, 2]], ["assign", "v", ["sub", V("x"), 1, 3]],
+                ["assign", "u", ["sub", V("v"), 0, 1]], ["assign", "v", ["bin", "+", V("u"), V("x")]]]
     out = []
     for t, o in (("u", "v"), ("v", "u")):
         for tag, e in df_exprs(t, o, ivar):
